@@ -149,6 +149,42 @@ fn chk_startpos_rel(mode: &str, ops: &str) -> Result<(), String> {
     }
     Ok(())
 }
+/// an archive of another writer (tiles sharing a start offset, unordered data, nested leaves) opened and written at P:
+/// what is read from P on must be the tiles the specification-level reader finds in the source
+fn chk_startpos_foreign(mode: &str, p: u64, bytes: &[u8]) -> Result<(), String> {
+    let src = spec::parse(bytes, false).map_err(|e| format!("harness: foreign archive invalid: {e}"))?;
+    let want: std::collections::BTreeMap<u64, Vec<u8>> = spec::all_tiles(&src, 1_000_000)?
+        .into_iter()
+        .map(|(id, ol)| spec::tile_bytes(bytes, &src.header, ol).map(|b| (id, b.to_vec())))
+        .collect::<Result<_, _>>()?;
+    let st = match catch_unwind(AssertUnwindSafe(|| open(mode == "async", bytes.to_vec(), FULL))) {
+        Ok(Ok(s)) => s,
+        _ => return Err("harness: the foreign archive does not open".into()),
+    };
+    let pre: Vec<u8> = (0..p + 50).map(|i| (i * 13 % 251) as u8 + 1).collect();
+    let mut sink = Core::new(pre.clone(), p);
+    sink.sched = crate::streams::Schedule { chunks: vec![50, 3, 1 << 20, 7, 4096], pend: vec![] };
+    let (r, core) = write_to(st, sink);
+    res(r, "to_writer at a non-zero position")?;
+    let img = core.data;
+    if img[..p as usize] != pre[..p as usize] {
+        return Err(format!("bytes before the starting position {p} were modified"));
+    }
+    let v = spec::parse(&img[p as usize..], true).map_err(|e| format!("bytes from position {p} on are not a valid archive: {e}"))?;
+    let got = spec::all_tiles(&v, 1_000_000)?;
+    if got.len() != want.len() {
+        return Err(format!("the archive written at {p} addresses {} tiles, the source {}", got.len(), want.len()));
+    }
+    for (id, ol) in got {
+        if want.get(&id).map(|c| &c[..]) != Some(spec::tile_bytes(&img[p as usize..], &v.header, ol)?) {
+            return Err(format!("tile {id} of the archive written at position {p} has other bytes than in the source archive"));
+        }
+    }
+    if core.pos != img.len() as u64 && core.pos != p + (v.header.data_off + v.header.data_len) {
+        return Err(format!("stream left at position {} instead of the archive's end", core.pos));
+    }
+    Ok(())
+}
 fn chk_startpos_with(_mode: &str, p: u64, pre: &[u8], build: &dyn Fn() -> Result<St, String>) -> Result<(), String> {
     let reference = {
         let (r, core) = write_to(build()?, Core::new(Vec::new(), 0));
@@ -368,6 +404,32 @@ fn within(ranges: &[(u64, u64)], allowed: &[(u64, u64)]) -> Option<(u64, u64)> {
         return Some(*r);
     }
     None
+}
+/// an archive whose told directory lengths are too short (or otherwise wrong): whether or not it opens, nothing outside
+/// the header, the metadata section, the root window and the leaf section it was told about is read
+fn chk_windows_told(mode: &str, bytes: &[u8]) -> Result<(), String> {
+    let h = spec::decode_header(bytes).map_err(|e| format!("harness: header invalid: {e}"))?;
+    let mut allowed: Vec<(u64, u64)> = vec![(0, 127)];
+    for (o, l) in [(h.meta_off, h.meta_len), (h.root_off, h.root_len), (h.leaf_off, h.leaf_len)] {
+        if l > 0 {
+            allowed.push((o, o.saturating_add(l)));
+        }
+    }
+    let rr = if mode == "sync" {
+        let sh = Shared::new(Core::new(bytes.to_vec(), 0));
+        let _ = catch_unwind(AssertUnwindSafe(|| PMTiles::from_reader(sh.clone()).map(|_| ()))).map_err(|_| "opening panicked".to_string())?;
+        let rr = read_ranges(&sh.0.borrow().log);
+        rr
+    } else {
+        let sh = AShared::new(Core::new(bytes.to_vec(), 0));
+        let _ = catch_unwind(AssertUnwindSafe(|| block_on(PMTiles::from_async_reader(sh.clone())).map(|_| ()))).map_err(|_| "opening panicked".to_string())?;
+        let rr = read_ranges(&sh.0.lock().unwrap().log);
+        rr
+    };
+    if let Some(bad) = within(&rr, &allowed) {
+        return Err(format!("opening read bytes [{}, {}): outside the header, the metadata section, the root window [{}, {}) and the leaf section [{}, {}) it was told about", bad.0, bad.1, h.root_off, h.root_off + h.root_len, h.leaf_off, h.leaf_off.saturating_add(h.leaf_len)));
+    }
+    Ok(())
 }
 fn chk_lazy(mode: &str, rg: Range, bytes: &[u8]) -> Result<(), String> {
     let v = spec::parse(bytes, false).map_err(|e| format!("harness: archive invalid: {e}"))?;
